@@ -45,5 +45,21 @@ with open(out + "/functions_never_run.txt", "w") as f:
         f.write("%s\n" % file)
         for n in sorted(never[file]):
             f.write("    %s\n" % n)
+# uncovered source lines of the non-test files (line|count|text as printed by llvm-cov show)
+show = subprocess.run([tool + "/llvm-cov", "show", binary, "-instr-profile=" + base + "/merged.profdata", "--ignore-filename-regex=(registry|rustc|harness|/tests/)", "-show-line-counts"], capture_output=True, text=True).stdout
+with open(out + "/uncovered_lines.txt", "w") as f:
+    cur = None
+    for line in show.splitlines():
+        if line.startswith("/repo/") and line.endswith(":"):
+            cur = line
+            continue
+        m = re.match(r"\s*(\d+)\|\s*0\|(.*)", line)
+        if m and cur and m.group(2).strip() not in ("}", "", "{", "});", "})", "};"):
+            if cur is not True:
+                f.write(cur + "\n")
+                cur = True
+            f.write("  %5s| %s\n" % (m.group(1), m.group(2)[:160]))
+        elif line.startswith("/") and line.endswith(":"):
+            cur = None
 print(rep[-1500:])
 shutil.rmtree(base, ignore_errors=True)
